@@ -86,14 +86,24 @@ def build_jobs(tier, rep):
 
 def run(tier, rep, pid=PID):
     jobs = build_jobs(tier, rep)
-    res = C.pmap(steps, jobs, chunk=100)
-    traces, meta = [], []
-    for job, ts in zip(jobs, res):
-        for t in ts:
-            meta.append((job[2], t.pop("_doc"), t.pop("_op")))
-            traces.append(t)
-    verdicts, st = C.validate_traces("DocAlgebraTrace", traces, shard=2500, heap="10g")
-    rep.tlc_stats("DocAlgebraTrace[quote/list]", st, len(traces))
+    # executed and validated in slices (bounded memory in the thorough tier)
+    meta, verdicts = [], []
+    acc = {"generated": 0, "distinct": 0, "shards": 0, "tlc_wall": 0.0}
+    for lo in range(0, len(jobs), 60000):
+        res = C.pmap(steps, jobs[lo: lo + 60000], chunk=100)
+        traces = []
+        for job, ts in zip(jobs[lo: lo + 60000], res):
+            for t in ts:
+                meta.append((job[2], t.pop("_doc"), t.pop("_op")))
+                traces.append(t)
+        del res
+        vs, st = C.validate_traces("DocAlgebraTrace", traces, shard=2500, heap="10g")
+        verdicts += vs
+        for kk in acc:
+            acc[kk] += st[kk]
+        del traces
+    rep.tlc_stats("DocAlgebraTrace[quote/list]", acc, len(meta))
+    traces = range(len(meta))
     skips, held = {}, 0
     for (cfgkey, doc, op), (v, pos) in zip(meta, verdicts):
         if v == "ok":
